@@ -221,6 +221,7 @@ var _ rpc.Resources
 //@   resolves[C07] cb exactly-once
 //@   callback cb requires[C04] arg0 != nil && (arg0.Error != nil || arg0.AccessResult != nil)
 //@   assert[C05,C10] c.serv.cache.Access#1: arg0 == s && arg1 == c.token && !arg2
+//@   assert[C11] c.serv.cache.Access#1: !c.disposing
 //@ closure (*wsConn).Access#1
 //@   resolves[C07] cb exactly-once
 
